@@ -58,10 +58,10 @@ Print Assumptions C01_graph_instance.
 
 (* Non-vacuity: a diamond with two executor children and an interleaved schedule. *)
 Example C01_diamond :
-  let g := [ {| n_k := 1; n_ins := [IConst 2]; n_remote := false |};
-             {| n_k := 2; n_ins := [IConn [0]]; n_remote := true |};
-             {| n_k := 3; n_ins := [IConn [0]; IConst 5]; n_remote := true |};
-             {| n_k := 4; n_ins := [IConn [2; 1]; IConn [1]]; n_remote := false |} ] in
+  let g := [ {| n_k := 1; n_ins := [IConst 2]; n_remote := false; n_macro := false |};
+             {| n_k := 2; n_ins := [IConn [0]]; n_remote := true; n_macro := false |};
+             {| n_k := 3; n_ins := [IConn [0]; IConst 5]; n_remote := true; n_macro := false |};
+             {| n_k := 4; n_ins := [IConn [2; 1]; IConn [1]]; n_remote := false; n_macro := false |} ] in
   wf_graph g = true /\
   exists s, run 4 (g_ups g) (g_sem g) (g_remote g) (init 4 (g_ups g) (g_sem g) (g_remote g) [0])
               [Deliver 1; Deliver 0; Complete 1; Complete 2; Deliver 1; Deliver 0] = Some s
